@@ -895,6 +895,12 @@ func (fg *FnGen) run() (err error) {
 			t := fg.evalBool(r.Expr, env)
 			fg.assertRaw(t)
 		}
+		for _, r := range c.Assumes {
+			env := fg.env(fg.cur, fg.entry, nil)
+			t := fg.evalBool(r.Expr, env)
+			fg.assertRaw(t)
+			fg.note("ASSUMED (environment invariant, not checked at call sites) in " + fg.key + ": " + r.Src)
+		}
 		fg.declaredEvents = map[string]bool{}
 		for _, em := range c.Emits {
 			fg.declaredEvents["cnt:"+em.Event] = true
@@ -1070,6 +1076,15 @@ func (fg *FnGen) loopHead(b *ssa.BasicBlock, li *loopInfo, fpreds []*ssa.BasicBl
 			fg.assume(Ge(nv.L[0], IntLit(lo)))
 			if bound != nil {
 				fg.assume(Or(Eq(nv.L[0], IntLit(lo)), Lt(nv.L[0], fg.val(bound).one())))
+			}
+		}
+	}
+	// iteration-local ghosts restart from their initial value
+	if fg.c != nil {
+		for _, gv := range fg.c.Ghosts {
+			if gv.Iter {
+				env := fg.env(fg.cur, fg.entry, nil)
+				fg.cur.ver["ghost:"+gv.Name] = fg.evalC(gv.Init, env).one()
 			}
 		}
 	}
